@@ -14,72 +14,72 @@ import (
 // Obligation is one proof goal: under the assumptions preceding it in the
 // script, Goal must hold.
 type Obligation struct {
-	Name   string // <func>.<class>[.<label>]
-	Kind   string // ensures | requires-at-call | panic | inv-entry | inv-preserved | decreases | cover | frame
-	Clause string // clause text or site description
-	Goal   string // SMT term that must be valid
-	Upto   int    // script prefix length
-	Pos    string // source position
-	Cover  bool   // cover query: Goal must be satisfiable (vacuity guard)
-	Func   string
-	Finding *Finding // for canaries
+	Name     string // <func>.<class>[.<label>]
+	Kind     string // ensures | requires-at-call | panic | inv-entry | inv-preserved | decreases | cover | frame
+	Clause   string // clause text or site description
+	Goal     string // SMT term that must be valid
+	Upto     int    // script prefix length
+	Pos      string // source position
+	Cover    bool   // cover query: Goal must be satisfiable (vacuity guard)
+	Func     string
+	Finding  *Finding // for canaries
 	NRegions int
 }
 
 // Engine translates one function (plus what it inlines) into one Script.
 type Engine struct {
-	w         *World
-	sc        *Script
-	comps     map[string]*component
-	compOrder []string
-	nalloc    int
-	obls      []*Obligation
-	lits      map[string]string // string literal -> constant name
-	litOrder  []string
-	litFacts  map[string]bool
-	tags      map[string]int // dynamic type key -> tag
-	tagTypes  []types.Type
-	funcIDs   map[*ssa.Function]int
-	abstracted map[string]int // external callees havocked
-	assumedExt map[string]int // external callees with built-in (assumed) models
-	inlined   map[string]int
+	w             *World
+	sc            *Script
+	comps         map[string]*component
+	compOrder     []string
+	nalloc        int
+	obls          []*Obligation
+	lits          map[string]string // string literal -> constant name
+	litOrder      []string
+	litFacts      map[string]bool
+	tags          map[string]int // dynamic type key -> tag
+	tagTypes      []types.Type
+	funcIDs       map[*ssa.Function]int
+	abstracted    map[string]int // external callees havocked
+	assumedExt    map[string]int // external callees with built-in (assumed) models
+	inlined       map[string]int
 	usedContracts map[string]int
-	depth     int
-	stack     []*ssa.Function
-	root      *ssa.Function
-	rootC     *Contract
-	oldHeap   Heap // entry heap of the function under verification (for old())
+	depth         int
+	stack         []*ssa.Function
+	root          *ssa.Function
+	rootC         *Contract
+	oldHeap       Heap // entry heap of the function under verification (for old())
 	curHeapForOld Heap
-	uf        map[string]bool
-	warnings  []string
-	pure      bool // translating ghost/spec code: panic sites are not obligations
-	strOps    map[string]bool
-	loopStates map[*loopInfo]*liState
-	oblCount map[string]int
-	callsSeen map[string]int
-	inlineMemo map[*ssa.Function]string
+	uf            map[string]bool
+	warnings      []string
+	pure          bool // translating ghost/spec code: panic sites are not obligations
+	strOps        map[string]bool
+	loopStates    map[*loopInfo]*liState
+	oblCount      map[string]int
+	callsSeen     map[string]int
+	inlineMemo    map[*ssa.Function]string
 	pendingWrites []map[string]bool
-	curExitCode string
-	exitSites []exitSite
-	ghostWrites []ghostWriteRec
-	ghostEvents [][3]string
-	epochs map[string]int
-	litHooks []func()
-	inLitHook bool
-	hookKeys map[string]bool
-	allocReach map[string]string
-	pureMemo map[string]Val
-	rootArgs []Val
-	inInit bool
-	allocBase string // loop allocation base of the block being executed ("" outside loops)
-	loopAllocN map[string]int
-	lastLoopBase string
-	allocMark int
-	parseCalls []string
-	guard string // reach condition of the block being executed (guards stores)
-	memo map[string]execResult
-	dirty map[string]bool
-	loopModKeys map[*loopInfo]map[string]bool
+	curExitCode   string
+	exitSites     []exitSite
+	ghostWrites   []ghostWriteRec
+	ghostEvents   [][3]string
+	epochs        map[string]int
+	litHooks      []func()
+	inLitHook     bool
+	hookKeys      map[string]bool
+	allocReach    map[string]string
+	pureMemo      map[string]Val
+	rootArgs      []Val
+	inInit        bool
+	allocBase     string // loop allocation base of the block being executed ("" outside loops)
+	loopAllocN    map[string]int
+	lastLoopBase  string
+	allocMark     int
+	parseCalls    []string
+	guard         string // reach condition of the block being executed (guards stores)
+	memo          map[string]execResult
+	dirty         map[string]bool
+	loopModKeys   map[*loopInfo]map[string]bool
 }
 
 func newEngine(w *World) *Engine {
@@ -230,10 +230,10 @@ type deferred struct {
 
 // exitSite is a call of os.Exit (or log.Fatal*): condition, exit code, heap snapshot.
 type exitSite struct {
-	cond string
-	code string
-	heap Heap
-	pos  string
+	cond    string
+	code    string
+	heap    Heap
+	pos     string
 	nwrites int
 }
 
@@ -254,9 +254,9 @@ type loopInfo struct {
 }
 
 type execResult struct {
-	ret     Val
-	reach   string // condition under which the function returns normally
-	heap    Heap
+	ret   Val
+	reach string // condition under which the function returns normally
+	heap  Heap
 }
 
 func (e *Engine) posOf(p token.Pos) string {
@@ -722,6 +722,12 @@ func (e *Engine) zeroArr(el, z string, n int) string {
 			a = sto(a, bvLit(uint64(i), 64), z)
 		}
 		return a
+	}
+	if n < 0 || n > 16 {
+		// symbolic or large length: the zero initialisation of string/float elements is not
+		// modelled (elements are unconstrained), which only weakens what can be proved
+		e.warnOnce("zero initialisation of string elements of slices with symbolic length is not modelled (elements unconstrained)")
+		return e.sc.declare("zuninit", arrSort(SI64, el))
 	}
 	name := "zarr_" + el
 	if _, ok := e.sc.declared[name]; !ok {
